@@ -1,0 +1,18 @@
+//go:build verif
+
+// Contracts for the gowp verifier (/verif). Comment-only file: compiled only with -tags verif and
+// contributes no code either way.
+
+package channeldb
+
+//@ func (c *ChannelStateDB) AdvanceCommitChainTail$1
+//@   props C02
+//@   loop * havoc
+//@   loop 0 step len(validUpdates) == prev(len(validUpdates)) + ite(upd.LogIndex >= newCommit.Commitment.RemoteLogIndex, 1, 0)
+//@   site call append: assert upd.LogIndex >= newCommit.Commitment.RemoteLogIndex
+//@   site call putChanCommitment: assert retn(deserializeCommitDiff, 1) == nil && arg(1) == addr(retn(deserializeCommitDiff, 0).Commitment) && !arg(2)
+//@   site call Delete: assert ret(putChanCommitment) == nil
+//@   site call putRevocationLog: assert arg(1) == addr(channel.RemoteCommitment) && arg(2) == ourOutputIndex && arg(3) == theirOutputIndex
+//@   site call AddFwdPkg: assert arg(2) == fwdPkg && ret(putRevocationLog) == nil
+//@   site call serializeLogUpdates nth 0: assert arg(1) == validUpdates
+//@   site call serializeLogUpdates nth 1: assert arg(1) == updates
